@@ -2648,6 +2648,7 @@ STEP_MODULES = [
     ("ParseArgs", "T18", ("C04", "C05", "C08"), lambda ast: t18(ast)),
     ("Loops", "T19", ("C06", "C10", "C14"), lambda ast: t19(ast)),
     ("CmdList", "T14/T20", ("C10", "C19"), lambda ast: t14_list(ast) + t20(ast)),
+    ("Leaves", "T22", ("C02", "C03", "C08", "C09", "C19", "C20"), lambda ast: t22(ast)),
 ]
 SETTER_MODULES = [
     ("Reset", "T7", ("C01", "C14", "C20"), lambda ast: t7(ast, ["reset_state", "unsolicited_reset_state"])),
@@ -2665,6 +2666,7 @@ MODULE_GROUPS = [("Steps", "steps", STEP_MODULES), ("Setters", "setters", SETTER
 
 def step_module_props():
     d = {"layout." + k: set(v) for k, v in COUNTER_PROPS.items()}
+    d.update({"fingerprint." + k: set(v) for k, v in FP_PROPS.items()})
     d.update(_module_props())
     return d
 
@@ -2762,6 +2764,175 @@ def t21(ast):
     return defs, rep
 
 
+# ------------------------------------------------------------------------------------ T22 / T23
+# Fingerprints.  Every remaining function the model describes by hand is reduced to a canonical S-expression of its body
+# (casts that do not change the value, parentheses and the `((void)0)` left by assert are dropped) and compared with the
+# one recorded in tools/fingerprints.json when the model function was written against it.  T22: for the leaves with a direct
+# transliteration (the two walks over the command groups, the access test, the printing primitive and its by-machine helpers,
+# the line-break choice) the fixed Lean text is emitted into Gen/Steps/Leaves.lean and the model's functions are proved equal to
+# it.  T23: for the others (variable parsers, validators, formatters, `cat_init`, the bodies of the public API) the fingerprint
+# only says "this is still the function the model was written for"; a changed body is reported as a broken tie for the
+# properties resting on that function, and the failing-input search takes over.
+
+FINGERPRINTS = os.path.join(os.path.dirname(os.path.abspath(__file__)), "fingerprints.json")
+LEAF_FUNCS = ["get_command_by_index", "is_command_disable", "is_variables_access_possible", "get_left_buffer_space_by_fsm",
+              "get_current_buffer_by_fsm", "move_position_by_fsm", "print_nstring_to_buf", "print_string_to_buf", "get_new_line_chars",
+              "get_command_by_fsm", "get_var_by_fsm"]
+FP_PROPS = {
+    "parse_int_decimal": {"C04"}, "parse_uint_decimal": {"C04"}, "parse_num_hexadecimal": {"C04"},
+    "validate_int_range": {"C04"}, "validate_uint_range": {"C04"},
+    "parse_buffer_hexadecimal": {"C05"}, "parse_buffer_string": {"C05"},
+    "print_format_num": {"C03", "C07"}, "format_int_decimal": {"C07"}, "format_uint_decimal": {"C07"}, "format_num_hexadecimal": {"C07"},
+    "format_buffer_hexadecimal": {"C03", "C07"}, "format_buffer_string": {"C03", "C07"}, "format_info_type": {"C19"},
+    "cat_init": {"C01", "C02", "C03", "C13", "C14", "C18", "C20"}, "unsolicited_init": {"C13", "C18"},
+    "cat_service": {"C11", "C15", "C16"}, "cat_is_busy": {"C16", "C18"}, "cat_is_hold": {"C14", "C16", "C18"},
+    "cat_hold_exit": {"C14", "C16"}, "cat_trigger_unsolicited_event": {"C13", "C16"}, "cat_trigger_unsolicited_read": {"C13"},
+    "cat_trigger_unsolicited_test": {"C13"}, "cat_is_unsolicited_buffer_full": {"C13", "C16"},
+    "cat_is_unsolicited_event_buffered": {"C13", "C16"}, "cat_get_processed_command": {"C13"},
+    "ack_error": {"C01", "C10", "C11", "C20"}, "ack_ok": {"C01", "C10", "C11", "C20"},
+    "get_atcmd_buf": {"C03", "C06"}, "get_unsolicited_buf": {"C03", "C06"},
+}
+
+
+def _sexp(n):
+    if not isinstance(n, dict):
+        return "_"
+    n = strip(n)
+    k = n.get("kind")
+    kids = [c for c in (n.get("inner") or []) if isinstance(c, dict)]
+    if k == "CompoundStmt":
+        return "{" + " ".join(_sexp(c) for c in kids if not is_noise(c)) + "}"
+    if k == "DeclRefExpr":
+        return n.get("referencedDecl", {}).get("name", "?")
+    if k == "IntegerLiteral":
+        return str(n.get("value"))
+    if k == "CharacterLiteral":
+        return "'%s'" % n.get("value")
+    if k == "StringLiteral":
+        return n.get("value", '""')
+    if k == "MemberExpr":
+        return "(%s %s %s)" % ("->" if n.get("isArrow") else ".", _sexp(kids[0]) if kids else "?", n.get("name"))
+    if k in ("BinaryOperator", "CompoundAssignOperator"):
+        return "(%s %s %s)" % (n.get("opcode"), _sexp(kids[0]), _sexp(kids[1]))
+    if k == "UnaryOperator":
+        return "(%s%s %s)" % (n.get("opcode"), "post" if n.get("isPostfix") else "", _sexp(kids[0]))
+    if k == "CStyleCastExpr":
+        return "(cast %s %s)" % (n.get("type", {}).get("qualType", "?").replace(" ", ""), _sexp(kids[0]))
+    if k == "VarDecl":
+        return "(var %s %s%s)" % (n.get("type", {}).get("qualType", "?").replace(" ", ""), n.get("name"),
+                                  (" " + _sexp(kids[-1])) if kids else "")
+    if k == "UnaryExprOrTypeTraitExpr":
+        return "(%s %s)" % (n.get("name"), n.get("argType", {}).get("qualType", "") or " ".join(_sexp(c) for c in kids))
+    body = " ".join(("_" if not isinstance(c, dict) or not c else _sexp(c)) for c in (n.get("inner") or []) if not (isinstance(c, dict) and c and is_noise(c)))
+    return "(%s%s)" % (k, (" " + body) if body else "")
+
+
+def fingerprint(ast, name):
+    decl, body = find_fn(ast, name)
+    params = " ".join("%s:%s" % (p.get("name"), p.get("type", {}).get("qualType", "?").replace(" ", ""))
+                      for p in decl.get("inner", []) if p.get("kind") == "ParmVarDecl")
+    return "%s (%s) %s" % (decl.get("type", {}).get("qualType", "?").split("(")[0].strip().replace(" ", ""), params, _sexp(body))
+
+
+def _fp_diff(a, b):
+    i = 0
+    while i < min(len(a), len(b)) and a[i] == b[i]:
+        i += 1
+    return "at %d: source `%s` / recorded `%s`" % (i, a[max(0, i - 30):i + 50], b[max(0, i - 30):i + 50])
+
+
+def write_fingerprints():
+    ast = load_ast()
+    d = {f: fingerprint(ast, f) for f in LEAF_FUNCS + sorted(FP_PROPS)}
+    with open(FINGERPRINTS, "w") as fh:
+        json.dump(d, fh, indent=1, sort_keys=True)
+    return d
+
+
+def _fp_check(ast, names):
+    rec = json.load(open(FINGERPRINTS))
+    for f in names:
+        now = fingerprint(ast, f)
+        if f not in rec:
+            raise Unrecognised("no recorded fingerprint for %s" % f)
+        if now != rec[f]:
+            raise Unrecognised("T22: the body of %s differs from the recorded one (%s)" % (f, _fp_diff(now, rec[f])))
+
+
+def t23(ast):
+    rep = {}
+    try:
+        rec = json.load(open(FINGERPRINTS))
+    except Exception as ex:
+        return {"fingerprint." + f: "failed: %r" % ex for f in FP_PROPS}
+    for f in sorted(FP_PROPS):
+        try:
+            now = fingerprint(ast, f)
+            rep["fingerprint." + f] = "translated" if now == rec.get(f) else \
+                "anomaly: the body of %s differs from the one the model function was written against (%s)" % (f, _fp_diff(now, rec.get(f, "")))
+        except Exception as ex:
+            rep["fingerprint." + f] = "anomaly: %r" % ex
+    return rep
+
+
+LEAVES_LEAN = [
+    """/-- `get_command_by_index` of src/cat.c: `j` is the number of commands in the groups walked so far -/
+def get_command_by_index_loop : List GroupD → Nat → Nat → Option CmdD
+  | [], _, _ => none                                                     -- return NULL
+  | g :: gs, j, index =>
+    if index ≥ j + g.cmds.length then get_command_by_index_loop gs (j + g.cmds.length) index   -- j += cmd_group->cmd_num; continue
+    else g.cmds[index - j]?                                              -- return &cmd_group->cmd[index - j]
+
+def get_command_by_index (D : Desc) (index : Nat) : Option CmdD := get_command_by_index_loop D.groups 0 index""",
+    """/-- `is_command_disable` of src/cat.c -/
+def is_command_disable_loop : List GroupD → Nat → Nat → Bool
+  | [], _, _ => false
+  | g :: gs, j, index =>
+    if index ≥ j + g.cmds.length then is_command_disable_loop gs (j + g.cmds.length) index
+    else if g.disable != false then true
+    else if ((g.cmds[index - j]?).map (·.disable)).getD false != false then true
+    else false                                                           -- break; return false
+
+def is_command_disable (D : Desc) (index : Nat) : Bool := is_command_disable_loop D.groups 0 index""",
+    """/-- `is_variables_access_possible` of src/cat.c: the loop over `cmd->var[0 .. var_num)` as `List.any` -/
+def is_variables_access_possible (cmd : CmdD) (access : Access) : Bool :=
+  match cmd.vars with
+  | none => false                                                        -- cmd->var == NULL
+  | some vs => vs.any (fun var => var.access == .rw || var.access == access)""",
+    """/-- `get_left_buffer_space_by_fsm` of src/cat.c (`size_t` subtraction: the model's ghost check `position ≤ size` is in `print_nstring_to_buf`) -/
+def get_left_buffer_space_by_fsm (D : Desc) (s : St) (f : Fsm) : Nat :=
+  match f with
+  | .cmd => D.cmdCap - s.position
+  | .uns => D.unsCap - s.uposition""",
+    """/-- `move_position_by_fsm` of src/cat.c -/
+def move_position_by_fsm (s : St) (offset : Nat) (f : Fsm) : St :=
+  match f with
+  | .cmd => { s with position := s.position + offset }
+  | .uns => { s with uposition := s.uposition + offset }""",
+    """/-- `print_nstring_to_buf` of src/cat.c with `get_current_buffer_by_fsm` (the address of the byte under the machine's cursor):
+the Bool is "returned 0" -/
+def print_nstring_to_buf (D : Desc) (s : St) (f : Fsm) (str : List Byte) : St × Bool :=
+  let s : St := s.chkUb (s.pos f ≤ D.capOf f);                            -- ghost: the subtraction below does not wrap
+  if str.length ≥ get_left_buffer_space_by_fsm D s f then (s, false)      -- return -1
+  else
+    let s : St := writeB D s f (s.pos f) str;                             -- memcpy(get_current_buffer_by_fsm(self, fsm), str, len)
+    let s : St := move_position_by_fsm s str.length f;
+    (setB D s f (s.pos f) 0, true)                                        -- get_current_buffer_by_fsm(self, fsm)[0] = 0; return 0""",
+    """/-- `get_new_line_chars` of src/cat.c: the offset into the literal "\\r\\n" -/
+def get_new_line_chars (s : St) : Nat := if s.crFlag != false then 0 else 1""",
+    """/-- `get_command_by_fsm` of src/cat.c -/
+def get_command_by_fsm (s : St) (f : Fsm) : Option Nat :=
+  match f with
+  | .cmd => s.cmd
+  | .uns => s.ucmd""",
+]
+
+
+def t22(ast):
+    _fp_check(ast, LEAF_FUNCS)
+    return list(LEAVES_LEAN)
+
+
 def expected_defs():
     """name -> definition text from the committed expected copy (for fallbacks)"""
     txt = open(EXPECTED).read()
@@ -2804,6 +2975,7 @@ def generate():
     parts.append("def locked_api : List String := [%s]" % ", ".join('"%s"' % x for x in locked))
     parts.append("def unlocked_api : List String := [%s]" % ", ".join('"%s"' % x for x in unlocked))
     rep["T5"] = "translated" if not r5 else "anomaly: %s" % r5
+    rep.update(t23(ast))
     parts.append("\n/-! T21: width in bits of the unsigned counters the model keeps as natural numbers -/")
     d21, r21 = t21(ast)
     parts += d21
@@ -2832,7 +3004,9 @@ def regenerate():
 
 
 if __name__ == "__main__":
-    if len(sys.argv) > 1 and sys.argv[1] == "--print":
+    if len(sys.argv) > 1 and sys.argv[1] == "--fingerprints":
+        print("recorded %d fingerprints in %s" % (len(write_fingerprints()), FINGERPRINTS))
+    elif len(sys.argv) > 1 and sys.argv[1] == "--print":
         sys.stdout.write(generate()[0])
     else:
         print(json.dumps(regenerate(), indent=1))
